@@ -85,7 +85,7 @@ def circuit(rng, n_in=(1, 5), n_gates=(1, 10), types=GATES, max_arity=4, consts=
     return c
 
 
-def add_flops(rng, c, n_flops=(1, 2), bb=None, connect_all=True):
+def add_flops(rng, c, n_flops=(1, 2), bb=None, connect_all=True, inst="ff"):
     """splice flip-flop blackboxes (ff: clk,d -> q) into a blackbox-free circuit: each flop's d is driven
     by an existing node and its q drives a fresh buf that feeds a new gate or is an output"""
     bb = bb or cg.BlackBox("ff", ["clk", "d"], ["q"])
@@ -98,7 +98,7 @@ def add_flops(rng, c, n_flops=(1, 2), bb=None, connect_all=True):
         conns = {"d": d, "q": q}
         if connect_all or rng.random() < 0.5:
             conns["clk"] = "clk"
-        c.add_blackbox(bb, f"ff{i}", conns)
+        c.add_blackbox(bb, f"{inst}{i}", conns)
         # let q feed something
         gates = [n for n in c.graph.nodes if c.type(n) in MULTI and n != d and q not in c.transitive_fanin(n)
                  and n not in c.transitive_fanin(d)]
